@@ -1,20 +1,40 @@
 //! `threads`: compile once, execute the same compiled filters concurrently from many
 //! threads, and compare every concurrent execution with the isolated one (C19).
+//!
+//! `jaqmon threads <request.json>` prints one JSON summary. Request:
+//! `{"threads":T,"reps":R,"seed":s,"jitter":0..3,"take":N,"lockstep":bool,
+//!   "compile_during":bool,"share_values":bool,
+//!   "programs":[{"prog":text,"vars":[[name,wire]..],"inputs":[wire..]}..]}`
+//!
+//! Phases: (1) every program is compiled ONCE; (2) isolated baseline on the main thread,
+//! twice (determinism); (3) T threads x R repetitions run all (program, input) pairs on the
+//! shared `Filter`s, each run with its own `Ctx`, pulls interleaved with seeded
+//! `yield_now`/`sleep` jitter; optionally one more thread compiles (and runs) all programs
+//! meanwhile; with feature `sync` and `share_values`, the very same `Arc`-backed input
+//! values and global variables are handed to all threads; (4) isolated baseline again, in
+//! reverse program order, and the shared values are compared with their original wire form.
+//!
+//! All monitoring counters are `Relaxed` atomics on purpose: they must not add
+//! happens-before edges that could hide a race from ThreadSanitizer / Miri.
 use crate::codec::{dec, enc};
 use jaq_all::data::{Data, DataKind, Filter, Runner};
 use jaq_core::{Ctx, Vars};
 use jaq_json::Val;
 use jaq_std::input::RcIter;
 use serde_json::{json, Value};
-use std::sync::atomic::{AtomicU64, AtomicUsize, Ordering::Relaxed, Ordering::SeqCst};
+use std::collections::{BTreeMap, BTreeSet};
+use std::panic::{catch_unwind, AssertUnwindSafe};
+use std::sync::atomic::{AtomicU64, AtomicUsize, Ordering::Relaxed};
 use std::sync::{Arc, Barrier, Mutex};
 
-// the static half of the property: a compiled filter is shareable
+// the static half of the property: a compiled filter is shareable, and so are values in
+// their thread-safe representation. If either stops holding, the helper stops compiling.
 #[allow(dead_code)]
 fn assert_send_sync<T: Send + Sync>() {}
 #[allow(dead_code)]
 fn static_assertions() {
     assert_send_sync::<Filter>();
+    assert_send_sync::<jaq_core::Lut<DataKind>>();
     #[cfg(feature = "sync")]
     assert_send_sync::<Val>();
 }
@@ -29,28 +49,68 @@ impl Rng {
         z = (z ^ (z >> 27)).wrapping_mul(0x94d049bb133111eb);
         z ^ (z >> 31)
     }
+    fn shuffle<T>(&mut self, xs: &mut [T]) {
+        for i in (1..xs.len()).rev() {
+            let j = (self.next() % (i as u64 + 1)) as usize;
+            xs.swap(i, j);
+        }
+    }
 }
 
 static LAST_TID: AtomicUsize = AtomicUsize::new(usize::MAX);
 static SWITCHES: AtomicU64 = AtomicU64::new(0);
 static PULLS: AtomicU64 = AtomicU64::new(0);
+/// number of threads currently inside a run, and its maximum
+static ACTIVE: AtomicUsize = AtomicUsize::new(0);
+static MAX_ACTIVE: AtomicUsize = AtomicUsize::new(0);
+/// ticket counter for run completions (global completion sequence)
+static SEQ: AtomicU64 = AtomicU64::new(0);
+
+const ISOLATED: usize = usize::MAX - 1;
+const COMPILER: usize = usize::MAX - 2;
 
 fn jitter(rng: &mut Rng, tid: usize, level: u64) {
     PULLS.fetch_add(1, Relaxed);
-    if LAST_TID.swap(tid, SeqCst) != tid {
+    if LAST_TID.swap(tid, Relaxed) != tid {
         SWITCHES.fetch_add(1, Relaxed);
     }
-    if level == 0 {
-        return;
-    }
-    match rng.next() % (4 * level.max(1)) {
-        0 => std::thread::yield_now(),
-        1 if level >= 2 => std::thread::sleep(std::time::Duration::from_micros(rng.next() % 50)),
-        _ => (),
+    let r = rng.next();
+    match level {
+        0 => (),
+        1 => {
+            if r % 4 == 0 {
+                std::thread::yield_now()
+            }
+        }
+        2 => match r % 8 {
+            0 | 1 => std::thread::yield_now(),
+            2 => std::thread::sleep(std::time::Duration::from_micros((r >> 8) % 50)),
+            _ => (),
+        },
+        _ => match r % 4 {
+            0 | 1 => std::thread::yield_now(),
+            2 => std::thread::sleep(std::time::Duration::from_micros((r >> 8) % 200)),
+            _ => (),
+        },
     }
 }
 
-/// Run filter on input with a fresh context; returns the canonical text of what was observed.
+fn clip(s: &str) -> String {
+    if s.len() <= 1500 {
+        s.to_string()
+    } else {
+        let mut e = 1500;
+        while !s.is_char_boundary(e) {
+            e -= 1;
+        }
+        format!("{}…(+{} bytes)", &s[..e], s.len() - e)
+    }
+}
+
+/// Run filter on input with a fresh context; returns the canonical text of what a client
+/// observes (typed encoding of every output, then how the stream ended) and whether another
+/// thread was inside a run of the same filter at some pull.
+#[allow(clippy::too_many_arguments)]
 fn run_one(
     filter: &Filter,
     vars: &[Val],
@@ -59,40 +119,60 @@ fn run_one(
     rng: &mut Rng,
     tid: usize,
     level: u64,
-) -> String {
-    let runner = Runner::default();
-    let inputs: Box<dyn Iterator<Item = Result<Val, String>>> = Box::new(std::iter::empty());
-    let rc = RcIter::new(inputs);
-    let data = Data {
-        runner: &runner,
-        lut: &filter.lut,
-        inputs: &rc,
-    };
-    let ctx = Ctx::<DataKind>::new(&data, Vars::new(vars.iter().cloned()));
-    let mut it = filter.id.run((ctx, input));
-    let mut outs = Vec::new();
-    let mut end = json!(["cut"]);
-    for _ in 0..take {
-        jitter(rng, tid, level);
-        match it.next() {
-            None => {
-                end = json!(["end"]);
-                break;
+    same: Option<&AtomicUsize>,
+) -> (String, bool) {
+    let mut overlapped = false;
+    if let Some(a) = same {
+        a.fetch_add(1, Relaxed);
+        let c = ACTIVE.fetch_add(1, Relaxed) + 1;
+        MAX_ACTIVE.fetch_max(c, Relaxed);
+    }
+    let r = catch_unwind(AssertUnwindSafe(|| {
+        let runner = Runner::default();
+        let inputs: Box<dyn Iterator<Item = Result<Val, String>>> = Box::new(std::iter::empty());
+        let rc = RcIter::new(inputs);
+        let data = Data {
+            runner: &runner,
+            lut: &filter.lut,
+            inputs: &rc,
+        };
+        let ctx = Ctx::<DataKind>::new(&data, Vars::new(vars.iter().cloned()));
+        let mut it = filter.id.run((ctx, input));
+        let mut outs = Vec::new();
+        let mut end = json!(["cut"]);
+        for _ in 0..take {
+            jitter(rng, tid, level);
+            if let Some(a) = same {
+                overlapped |= a.load(Relaxed) > 1;
             }
-            Some(Ok(v)) => outs.push(enc(&v)),
-            Some(Err(e)) => {
-                end = match e.get_err() {
-                    Ok(err) => json!(["error", enc(&err.into_val())]),
-                    Err(e) => match e.get_halt() {
-                        Ok(c) => json!(["halt", c]),
-                        Err(_) => json!(["internal"]),
-                    },
-                };
-                break;
+            match it.next() {
+                None => {
+                    end = json!(["end"]);
+                    break;
+                }
+                Some(Ok(v)) => outs.push(enc(&v)),
+                Some(Err(e)) => {
+                    end = match e.get_err() {
+                        Ok(err) => json!(["error", enc(&err.into_val())]),
+                        Err(e) => match e.get_halt() {
+                            Ok(c) => json!(["halt", c]),
+                            Err(_) => json!(["internal"]),
+                        },
+                    };
+                    break;
+                }
             }
         }
+        json!([outs, end]).to_string()
+    }));
+    if let Some(a) = same {
+        a.fetch_sub(1, Relaxed);
+        ACTIVE.fetch_sub(1, Relaxed);
     }
-    json!([outs, end]).to_string()
+    match r {
+        Ok(s) => (s, overlapped),
+        Err(_) => (json!([[], ["panic", crate::take_panic()]]).to_string(), overlapped),
+    }
 }
 
 struct Prog {
@@ -102,8 +182,48 @@ struct Prog {
     inputs: Vec<Value>,
 }
 
+impl Prog {
+    fn dec_vars(&self) -> Vec<Val> {
+        self.vars.iter().map(|v| dec(v).unwrap_or(Val::Null)).collect()
+    }
+    fn dec_input(&self, ii: usize) -> Val {
+        dec(&self.inputs[ii]).unwrap_or(Val::Null)
+    }
+}
+
+fn compile_outcome(p: &Prog) -> (Option<Filter>, String) {
+    match catch_unwind(AssertUnwindSafe(|| crate::eval::compile(&p.text, &p.var_names))) {
+        Ok(Ok(f)) => (Some(f), "ok".to_string()),
+        Ok(Err(rep)) => (None, format!("error: {}", rep["report"].as_str().unwrap_or("?"))),
+        Err(_) => (None, format!("panic: {}", crate::take_panic())),
+    }
+}
+
+/// isolated runs of every (program, input) on the calling thread, programs in the given order
+fn baseline(progs: &[Prog], filters: &[Option<Filter>], take: usize, order: &[usize]) -> Vec<Vec<(String, String)>> {
+    let mut rows: Vec<Vec<(String, String)>> = progs.iter().map(|_| Vec::new()).collect();
+    for &pi in order {
+        let p = &progs[pi];
+        if let Some(f) = &filters[pi] {
+            let vars = p.dec_vars();
+            for ii in 0..p.inputs.len() {
+                let mut rng = Rng(0);
+                let a = run_one(f, &vars, p.dec_input(ii), take, &mut rng, ISOLATED, 0, None).0;
+                let b = run_one(f, &vars, p.dec_input(ii), take, &mut rng, ISOLATED, 0, None).0;
+                rows[pi].push((a, b));
+            }
+        }
+    }
+    rows
+}
+
 pub fn main(args: &[String]) {
     let path = args.first().cloned().unwrap_or_default();
+    if path == "--noop" {
+        // used to (pre)build the helper under Miri without running a workload
+        println!("{}", json!({"noop": true, "sync_values": cfg!(feature = "sync")}));
+        return;
+    }
     let text = std::fs::read_to_string(&path).expect("read request");
     let req: Value = serde_json::from_str(&text).expect("parse request");
     let threads = req["threads"].as_u64().unwrap_or(4) as usize;
@@ -111,8 +231,9 @@ pub fn main(args: &[String]) {
     let seed = req["seed"].as_u64().unwrap_or(1);
     let level = req["jitter"].as_u64().unwrap_or(1);
     let take = req["take"].as_u64().unwrap_or(64) as usize;
+    let lockstep = req["lockstep"].as_bool().unwrap_or(false);
     let compile_during = req["compile_during"].as_bool().unwrap_or(false);
-    let share_values = req["share_values"].as_bool().unwrap_or(false);
+    let share_values = req["share_values"].as_bool().unwrap_or(false) && cfg!(feature = "sync");
     let empty = Vec::new();
     let progs: Vec<Prog> = req["programs"]
         .as_array()
@@ -131,32 +252,51 @@ pub fn main(args: &[String]) {
         })
         .collect();
 
-    // compile once
+    // (1) compile once
     let mut filters: Vec<Option<Filter>> = Vec::new();
+    let mut compile_out: Vec<String> = Vec::new();
     for p in &progs {
-        filters.push(crate::eval::compile(&p.text, &p.var_names).ok());
+        let (f, o) = compile_outcome(p);
+        filters.push(f);
+        compile_out.push(o);
     }
+    let compile_errors: Vec<Value> = compile_out
+        .iter()
+        .enumerate()
+        .filter(|(_, o)| o.as_str() != "ok")
+        .map(|(i, o)| json!([i, clip(o)]))
+        .collect();
     let filters = Arc::new(filters);
     let progs = Arc::new(progs);
+    let compile_out = Arc::new(compile_out);
 
-    // isolated baseline (single thread, no jitter), twice: determinism
-    let mut expected: Vec<Vec<String>> = Vec::new();
+    // (2) isolated baseline (single thread, no jitter), twice: determinism
+    let fwd: Vec<usize> = (0..progs.len()).collect();
+    let base = baseline(&progs, &filters, take, &fwd);
     let mut nondet = Vec::new();
-    for (pi, p) in progs.iter().enumerate() {
-        let mut row = Vec::new();
-        if let Some(f) = &filters[pi] {
-            let vars: Vec<Val> = p.vars.iter().map(|v| dec(v).unwrap_or(Val::Null)).collect();
-            for (ii, inp) in p.inputs.iter().enumerate() {
-                let mut rng = Rng(0);
-                let a = run_one(f, &vars, dec(inp).unwrap_or(Val::Null), take, &mut rng, usize::MAX - 1, 0);
-                let b = run_one(f, &vars, dec(inp).unwrap_or(Val::Null), take, &mut rng, usize::MAX - 1, 0);
-                if a != b {
-                    nondet.push(json!({"prog": pi, "input": ii, "first": a, "second": b}));
-                }
-                row.push(a);
+    let mut isolated_panics = Vec::new();
+    let mut outcome_classes: BTreeMap<String, u64> = BTreeMap::new();
+    let mut isolated_runs = 0u64;
+    let mut expected: Vec<Vec<String>> = Vec::new();
+    for (pi, row) in base.into_iter().enumerate() {
+        let mut e = Vec::new();
+        for (ii, (a, b)) in row.into_iter().enumerate() {
+            isolated_runs += 2;
+            if a != b {
+                nondet.push(json!({"prog": pi, "input": ii, "first": clip(&a), "second": clip(&b)}));
             }
+            if let Ok(v) = serde_json::from_str::<Value>(&a) {
+                let kind = v[1][0].as_str().unwrap_or("?").to_string();
+                if kind == "panic" {
+                    isolated_panics.push(json!({"prog": pi, "input": ii, "panic": v[1][1]}));
+                }
+                let n = v[0].as_array().map_or(0, |o| o.len());
+                let cls = format!("{}:{}", kind, if n == 0 { "0" } else if n == 1 { "1" } else { "n" });
+                *outcome_classes.entry(cls).or_insert(0) += 1;
+            }
+            e.push(a);
         }
-        expected.push(row);
+        expected.push(e);
     }
     let expected = Arc::new(expected);
 
@@ -164,93 +304,121 @@ pub fn main(args: &[String]) {
     let shared: Arc<Vec<(Vec<Val>, Vec<Val>)>> = Arc::new(
         progs
             .iter()
-            .map(|p| {
-                (
-                    p.vars.iter().map(|v| dec(v).unwrap_or(Val::Null)).collect(),
-                    p.inputs.iter().map(|v| dec(v).unwrap_or(Val::Null)).collect(),
-                )
-            })
+            .map(|p| (p.dec_vars(), (0..p.inputs.len()).map(|ii| p.dec_input(ii)).collect()))
             .collect(),
     );
 
+    // (3) the concurrent phase
+    let pairs: Vec<(usize, usize)> = progs
+        .iter()
+        .enumerate()
+        .flat_map(|(pi, p)| (0..p.inputs.len()).map(move |ii| (pi, ii)))
+        .filter(|(pi, _)| filters[*pi].is_some())
+        .collect();
+    let pairs = Arc::new(pairs);
+    let same_active: Arc<Vec<AtomicUsize>> = Arc::new(progs.iter().map(|_| AtomicUsize::new(0)).collect());
+    let rep_done: Arc<Vec<AtomicUsize>> = Arc::new((0..reps).map(|_| AtomicUsize::new(0)).collect());
     let mismatches = Arc::new(Mutex::new(Vec::<Value>::new()));
+    let mismatch_count = Arc::new(AtomicU64::new(0));
     let runs = Arc::new(AtomicU64::new(0));
+    let overlapped_runs = Arc::new(AtomicU64::new(0));
     let barrier = Arc::new(Barrier::new(threads + usize::from(compile_during)));
+    let rep_barrier = Arc::new(Barrier::new(threads));
     let mut handles = Vec::new();
     for tid in 0..threads {
-        let (filters, progs, expected) = (filters.clone(), progs.clone(), expected.clone());
-        let (mismatches, runs, barrier) = (mismatches.clone(), runs.clone(), barrier.clone());
+        let (filters, progs, expected, pairs) = (filters.clone(), progs.clone(), expected.clone(), pairs.clone());
+        let (mismatches, mismatch_count, runs, overlapped_runs) =
+            (mismatches.clone(), mismatch_count.clone(), runs.clone(), overlapped_runs.clone());
+        let (barrier, rep_barrier, same_active, rep_done) =
+            (barrier.clone(), rep_barrier.clone(), same_active.clone(), rep_done.clone());
         #[cfg(feature = "sync")]
         let shared = shared.clone();
         let h = std::thread::Builder::new()
             .stack_size(64 << 20)
             .spawn(move || {
                 let mut rng = Rng(seed.wrapping_mul(1000003).wrapping_add(tid as u64));
+                // (rank of this thread among the finishers of each rep, tickets of its completions)
+                let mut ranks: Vec<usize> = Vec::with_capacity(reps);
+                let mut tickets: Vec<u64> = Vec::new();
                 barrier.wait();
-                for _rep in 0..reps {
-                    // per-thread order of (program, input) pairs
-                    let mut order: Vec<(usize, usize)> = Vec::new();
-                    for (pi, p) in progs.iter().enumerate() {
-                        for ii in 0..p.inputs.len() {
-                            order.push((pi, ii));
-                        }
-                    }
-                    for i in (1..order.len()).rev() {
-                        let j = (rng.next() % (i as u64 + 1)) as usize;
-                        order.swap(i, j);
+                for rep in 0..reps {
+                    let mut order: Vec<(usize, usize)> = pairs.to_vec();
+                    if lockstep {
+                        // same order in every thread: maximal overlap on the same filter
+                        rep_barrier.wait();
+                        Rng(seed ^ (rep as u64).wrapping_mul(0x51ed27)).shuffle(&mut order);
+                    } else {
+                        rng.shuffle(&mut order);
                     }
                     for (pi, ii) in order {
                         let Some(f) = &filters[pi] else { continue };
-                        let _ = share_values;
                         #[cfg(feature = "sync")]
                         let (vars, input) = if share_values {
                             (shared[pi].0.clone(), shared[pi].1[ii].clone())
                         } else {
-                            (
-                                progs[pi].vars.iter().map(|v| dec(v).unwrap_or(Val::Null)).collect::<Vec<_>>(),
-                                dec(&progs[pi].inputs[ii]).unwrap_or(Val::Null),
-                            )
+                            (progs[pi].dec_vars(), progs[pi].dec_input(ii))
                         };
                         #[cfg(not(feature = "sync"))]
-                        let (vars, input) = (
-                            progs[pi].vars.iter().map(|v| dec(v).unwrap_or(Val::Null)).collect::<Vec<_>>(),
-                            dec(&progs[pi].inputs[ii]).unwrap_or(Val::Null),
-                        );
-                        let got = run_one(f, &vars, input, take, &mut rng, tid, level);
+                        let (vars, input) = (progs[pi].dec_vars(), progs[pi].dec_input(ii));
+                        let (got, overlapped) =
+                            run_one(f, &vars, input, take, &mut rng, tid, level, Some(&same_active[pi]));
+                        tickets.push(SEQ.fetch_add(1, Relaxed));
                         runs.fetch_add(1, Relaxed);
+                        if overlapped {
+                            overlapped_runs.fetch_add(1, Relaxed);
+                        }
                         if got != expected[pi][ii] {
-                            mismatches.lock().unwrap().push(json!({
-                                "prog": pi, "input": ii, "thread": tid,
-                                "expected": expected[pi][ii], "got": got}));
+                            if mismatch_count.fetch_add(1, Relaxed) < 40 {
+                                mismatches.lock().unwrap().push(json!({
+                                    "prog": pi, "input": ii, "thread": tid, "rep": rep,
+                                    "expected": clip(&expected[pi][ii]), "got": clip(&got)}));
+                            }
                         }
                     }
+                    ranks.push(rep_done[rep].fetch_add(1, Relaxed));
                 }
+                (ranks, tickets)
             })
             .expect("spawn");
         handles.push(h);
     }
     let mut compiled_during = 0u64;
+    let mut compiler_panicked = false;
     if compile_during {
-        // compile (and run) filters while the others execute
-        let (progs, expected, mismatches) = (progs.clone(), expected.clone(), mismatches.clone());
+        // compile (and run) all programs, in another order, while the others execute
+        let (progs, expected, mismatches, mismatch_count, compile_out) =
+            (progs.clone(), expected.clone(), mismatches.clone(), mismatch_count.clone(), compile_out.clone());
         let barrier = barrier.clone();
         let h = std::thread::Builder::new()
             .stack_size(64 << 20)
             .spawn(move || {
                 let mut n = 0u64;
-                barrier.wait();
                 let mut rng = Rng(seed ^ 0xabcdef);
-                for _ in 0..reps.max(1) {
-                    for (pi, p) in progs.iter().enumerate() {
-                        if let Ok(f) = crate::eval::compile(&p.text, &p.var_names) {
-                            n += 1;
-                            let vars: Vec<Val> = p.vars.iter().map(|v| dec(v).unwrap_or(Val::Null)).collect();
-                            for (ii, inp) in p.inputs.iter().enumerate().take(2) {
-                                let got = run_one(&f, &vars, dec(inp).unwrap_or(Val::Null), take, &mut rng, usize::MAX - 2, 1);
+                barrier.wait();
+                for rep in 0..reps.max(1) {
+                    let mut order: Vec<usize> = (0..progs.len()).collect();
+                    rng.shuffle(&mut order);
+                    for pi in order {
+                        let p = &progs[pi];
+                        let (f, o) = compile_outcome(p);
+                        n += 1;
+                        if o != compile_out[pi] {
+                            if mismatch_count.fetch_add(1, Relaxed) < 40 {
+                                mismatches.lock().unwrap().push(json!({
+                                    "prog": pi, "input": null, "thread": "compiler", "rep": rep,
+                                    "expected": clip(&compile_out[pi]), "got": clip(&o)}));
+                            }
+                        }
+                        if let Some(f) = f {
+                            let vars = p.dec_vars();
+                            for ii in 0..p.inputs.len() {
+                                let got = run_one(&f, &vars, p.dec_input(ii), take, &mut rng, COMPILER, 1, None).0;
                                 if got != expected[pi][ii] {
-                                    mismatches.lock().unwrap().push(json!({
-                                        "prog": pi, "input": ii, "thread": "compiler",
-                                        "expected": expected[pi][ii], "got": got}));
+                                    if mismatch_count.fetch_add(1, Relaxed) < 40 {
+                                        mismatches.lock().unwrap().push(json!({
+                                            "prog": pi, "input": ii, "thread": "compiler", "rep": rep,
+                                            "expected": clip(&expected[pi][ii]), "got": clip(&got)}));
+                                    }
                                 }
                             }
                         }
@@ -259,24 +427,94 @@ pub fn main(args: &[String]) {
                 n
             })
             .expect("spawn");
-        compiled_during = h.join().unwrap_or(0);
-    }
-    let mut panicked = 0;
-    for h in handles {
-        if h.join().is_err() {
-            panicked += 1;
+        match h.join() {
+            Ok(n) => compiled_during = n,
+            Err(_) => compiler_panicked = true,
         }
     }
+    let mut panicked = 0;
+    let mut all_ranks: Vec<Vec<usize>> = Vec::new();
+    let mut all_tickets: Vec<(u64, usize)> = Vec::new();
+    for (tid, h) in handles.into_iter().enumerate() {
+        match h.join() {
+            Ok((ranks, tickets)) => {
+                all_ranks.push(ranks);
+                all_tickets.extend(tickets.into_iter().map(|t| (t, tid)));
+            }
+            Err(_) => panicked += 1,
+        }
+    }
+    // completion orders: for each rep, the order in which the threads finished it
+    let mut orders: BTreeSet<Vec<usize>> = BTreeSet::new();
+    if panicked == 0 {
+        for rep in 0..reps {
+            let mut o: Vec<(usize, usize)> = all_ranks.iter().enumerate().map(|(tid, r)| (r[rep], tid)).collect();
+            o.sort();
+            orders.insert(o.into_iter().map(|(_, tid)| tid).collect());
+        }
+    }
+    // global completion sequence: how often consecutive completions came from different threads
+    all_tickets.sort();
+    let completion_switches = all_tickets.windows(2).filter(|w| w[0].1 != w[1].1).count();
+
+    // (4) isolated again, in reverse program order: nothing that ran in between left a trace
+    let rev: Vec<usize> = (0..progs.len()).rev().collect();
+    let post = baseline(&progs, &filters, take, &rev);
+    let mut post_mismatches = Vec::new();
+    for (pi, row) in post.iter().enumerate() {
+        for (ii, (a, b)) in row.iter().enumerate() {
+            isolated_runs += 2;
+            if *a != expected[pi][ii] || *b != expected[pi][ii] {
+                let got = if *a != expected[pi][ii] { a } else { b };
+                post_mismatches.push(json!({"prog": pi, "input": ii, "thread": "isolated-after",
+                    "expected": clip(&expected[pi][ii]), "got": clip(got)}));
+            }
+        }
+    }
+    // values that were shared between the threads still are what they were
+    #[allow(unused_mut)]
+    let mut shared_changed: Vec<Value> = Vec::new();
+    #[allow(unused_mut)]
+    let mut shared_checked = 0u64;
+    #[cfg(feature = "sync")]
+    if share_values {
+        for (pi, p) in progs.iter().enumerate() {
+            for (vi, w) in p.vars.iter().enumerate() {
+                shared_checked += 1;
+                if dec(w).map(|v| enc(&v)).ok() != Some(enc(&shared[pi].0[vi])) {
+                    shared_changed.push(json!({"prog": pi, "var": vi, "now": clip(&enc(&shared[pi].0[vi]).to_string())}));
+                }
+            }
+            for (ii, w) in p.inputs.iter().enumerate() {
+                shared_checked += 1;
+                if dec(w).map(|v| enc(&v)).ok() != Some(enc(&shared[pi].1[ii])) {
+                    shared_changed.push(json!({"prog": pi, "input": ii, "now": clip(&enc(&shared[pi].1[ii]).to_string())}));
+                }
+            }
+        }
+    }
+
     let mm = mismatches.lock().unwrap();
     let out = json!({
-        "threads": threads, "reps": reps, "programs": progs.len(),
+        "threads": threads, "reps": reps, "programs": progs.len(), "pairs": pairs.len(),
+        "lockstep": lockstep, "jitter": level, "take": take,
         "compiled": filters.iter().filter(|f| f.is_some()).count(),
+        "compile_errors": compile_errors,
+        "isolated_runs": isolated_runs, "isolated_panics": isolated_panics,
+        "outcome_classes": outcome_classes,
         "runs": runs.load(Relaxed), "pulls": PULLS.load(Relaxed),
         "switches": SWITCHES.load(Relaxed),
-        "mismatches": mm.len(), "mismatch_samples": mm.iter().take(5).collect::<Vec<_>>(),
-        "nondeterministic": nondet, "thread_panics": panicked,
+        "overlapped_runs": overlapped_runs.load(Relaxed),
+        "max_concurrent": MAX_ACTIVE.load(Relaxed),
+        "completion_orders": orders.len(), "completion_switches": completion_switches,
+        "mismatches": mismatch_count.load(Relaxed),
+        "mismatch_samples": mm.iter().take(40).collect::<Vec<_>>(),
+        "post_mismatches": post_mismatches.len(),
+        "post_mismatch_samples": post_mismatches.iter().take(10).collect::<Vec<_>>(),
+        "nondeterministic": nondet, "thread_panics": panicked, "compiler_panicked": compiler_panicked,
         "compiled_during": compiled_during,
-        "sync_values": cfg!(feature = "sync"), "share_values": share_values && cfg!(feature = "sync"),
+        "shared_checked": shared_checked, "shared_changed": shared_changed,
+        "sync_values": cfg!(feature = "sync"), "share_values": share_values,
     });
     println!("{out}");
 }
